@@ -418,17 +418,18 @@ Proof. exact reach6u_example. Qed.
 
 (** VPNv4 / VPNv6 ([v6]).  Full statement: false for one reason, see [C08_mp_label0_refuted]. *)
 Definition C08_mp_vpn_valid_statement : Prop := forall c v6 rs,
-  (forall asn an ip b, reachvpn_construct v6 asn an ip rs = Ok b -> attr_block c c_ATTR_MpReachNLRI_ID b) /\
+  (forall nh6 asn an ip b, reachvpn_construct_x v6 nh6 asn an ip rs = Ok b -> attr_block c c_ATTR_MpReachNLRI_ID b) /\
   (forall b, unreachvpn_construct v6 rs = Ok (Some b) -> attr_block c c_ATTR_MpUnReachNLRI_ID b).
 (** proved: MP_UNREACH_NLRI without any guard (a withdrawal carries the fixed label 0x800000);
     MP_REACH_NLRI under [vroute_ok] = the label stack does not end in label 0, which is written
     without the bottom-of-stack bit (known finding C08-label0-no-bos).  A prefix length above
     32 / 128 is a construction error in the model as in the code (since fix: a prefix length
     outside the address size must be an error ...; [C08_mp_prefix_length_is_error]).
-    Any number of routes and labels, every RD type, every address, every prefix length. *)
+    Any number of routes and labels, every RD type, every address, every prefix length; routes of
+    either family ([v6]) with a next hop of either version ([nh6]: RD + 4 or RD + 16 octets). *)
 Theorem C08_mp_vpn_valid_partial : forall c v6 rs,
-  (forallb vroute_ok rs = true -> forall asn an ip b,
-     reachvpn_construct v6 asn an ip rs = Ok b -> attr_block c c_ATTR_MpReachNLRI_ID b) /\
+  (forallb vroute_ok rs = true -> forall nh6 asn an ip b,
+     reachvpn_construct_x v6 nh6 asn an ip rs = Ok b -> attr_block c c_ATTR_MpReachNLRI_ID b) /\
   (forall b, unreachvpn_construct v6 rs = Ok (Some b) -> attr_block c c_ATTR_MpUnReachNLRI_ID b).
 Proof. exact mp_vpn_valid. Qed.
 Print Assumptions C08_mp_vpn_valid_partial.
@@ -436,16 +437,18 @@ Example C08_mp_vpn_nonvacuous :
   (exists b, reachvpn_construct false 0 0 167772161 ex_vroutes = Ok b /\
              forallb vroute_ok ex_vroutes = true /\ len b = 68 /\ valid_attrs cfg0 b = true) /\
   (exists b, unreachvpn_construct true [mk_vroute [] (RdAs 100 100) (2 ^ 125) 61] = Ok (Some b) /\
+             valid_attrs cfg0 b = true) /\
+  (exists b, reachvpn_construct_x false true 0 0 (2 ^ 125 + 1) ex_vroutes = Ok b /\ len b = 80 /\
              valid_attrs cfg0 b = true).
-Proof. exact (conj reachvpn_example unreachvpn_example). Qed.
+Proof. exact (conj reachvpn_example (conj unreachvpn_example reachvpn_nh6_example)). Qed.
 
 (** labeled unicast, IPv4 and IPv6: the same *)
 Definition C08_mp_lu_valid_statement : Prop := forall c v6 rs,
-  (forall ip b, reachlu_construct v6 ip rs = Ok (Some b) -> attr_block c c_ATTR_MpReachNLRI_ID b) /\
+  (forall nh6 ip b, reachlu_construct_x v6 nh6 ip rs = Ok (Some b) -> attr_block c c_ATTR_MpReachNLRI_ID b) /\
   (forall b, unreachlu_construct v6 rs = Ok (Some b) -> attr_block c c_ATTR_MpUnReachNLRI_ID b).
 Theorem C08_mp_lu_valid_partial : forall c v6 rs,
-  (forallb lroute_ok rs = true -> forall ip b,
-     reachlu_construct v6 ip rs = Ok (Some b) -> attr_block c c_ATTR_MpReachNLRI_ID b) /\
+  (forallb lroute_ok rs = true -> forall nh6 ip b,
+     reachlu_construct_x v6 nh6 ip rs = Ok (Some b) -> attr_block c c_ATTR_MpReachNLRI_ID b) /\
   (forall b, unreachlu_construct v6 rs = Ok (Some b) -> attr_block c c_ATTR_MpUnReachNLRI_ID b).
 Proof. exact mp_lu_valid. Qed.
 Print Assumptions C08_mp_lu_valid_partial.
@@ -467,10 +470,10 @@ Print Assumptions C08_mp_label0_refuted.
 (** IPv4 flow specification, full strength.  [flow_ok] is the invariant of the abstraction [op]
     (comparison bits within LT|GT|EQ - all that construct_operator_flag can set from the operator
     text), not a restriction of the inputs.  Every number of rules, components and operators,
-    every operand size, both forms of the rule length; a prefix length above 32 or an address
-    that is not IPv4 is a construction error. *)
+    every operand size, both forms of the rule length, no / an IPv4 / an IPv6 next hop; a prefix
+    length above 32 or an address that is not IPv4 is a construction error. *)
 Theorem C08_mp_flow4_valid : forall c fs, forallb flow_ok fs = true ->
-  (forall nh b, reachfs_construct nh fs = Ok (Some b) -> attr_block c c_ATTR_MpReachNLRI_ID b) /\
+  (forall nh b, reachfs_construct_x nh fs = Ok (Some b) -> attr_block c c_ATTR_MpReachNLRI_ID b) /\
   (forall b, unreachfs_construct fs = Ok (Some b) -> attr_block c c_ATTR_MpUnReachNLRI_ID b).
 Proof. exact mp_flow4_valid. Qed.
 Print Assumptions C08_mp_flow4_valid.
